@@ -244,8 +244,26 @@ def _install_tx_tracking():
 
 def _run(args):
     hist, cfg = args
+    if cfg.get("loglevel") and not cfg.get("_quiet"):
+        # the same run with the flumine loggers raised (a refusal must not depend on its warning being logged)
+        import logging
+
+        lg = logging.getLogger("flumine")
+        saved = (lg.level, logging.root.manager.disable)
+        lg.setLevel(cfg["loglevel"])
+        logging.disable(cfg["loglevel"] - 1)
+        try:
+            rq = _run((hist, dict(cfg, _quiet=True)))
+        finally:
+            lg.setLevel(saved[0])
+            logging.disable(saved[1])
+        # differential: every request is answered and packaged exactly as with the default log level
+        rn = _run((hist, {k: v for k, v in cfg.items() if k != "loglevel"}))
+        if rq["outcome"] != rn["outcome"]:
+            rq["violations"] = list(rq["violations"]) + [core.v("C02.a", ("any", "log-level", "-", "decision-differs"), "with the flumine loggers at level %s the requests of this history are answered / packaged differently than at the default level" % cfg["loglevel"], {"history": hist, "cfg": {k: v for k, v in cfg.items() if not k.startswith("_")}}, size=L._hsize(hist))]
+        return rq
     ticks, scripts = L.split_history(hist, 1)
-    spec = simx.MarketSpec(book0=L.BOOK0)
+    spec = simx.MarketSpec(book0=cfg.get("book0") or L.BOOK0)
     h = Hooks(hist, cfg)
     skw = dict(max_order_exposure=cfg.get("max_order", 5), max_selection_exposure=None, max_live_trade_count=cfg.get("max_live", 3))
     L._install_created_tracking()
@@ -513,6 +531,11 @@ def run(tier):
     for cfg in cfgs:
         cfg["rich"] = thorough
         c04.explore(rep, {"C02"}, alphabet, tier, [cfg], depth_q=4 if cfg["name"] in ("default", "slow") else 3, depth_t=5 if cfg["name"] == "default" else 4, dev_k_q=0, dev_k_t=0, horizon=0, run=_run)
+    # a runner without lay offers (one empty ladder side); the flumine loggers raised to CRITICAL
+    nolay = {k: (dict(v, atl=[]) if k == 1 else v) for k, v in L.BOOK0.items()}
+    for cfg in (dict(name="no-lay-offers", dt=200, book0=nolay), dict(name="quiet-logging", dt=200, loglevel=50)):
+        cfg["rich"] = False
+        c04.explore(rep, {"C02"}, alphabet, tier, [cfg], depth_q=2, depth_t=3, dev_k_q=0, dev_k_t=0, horizon=0, run=_run)
     # packaging
     pj = []
     patterns = [(None,), ("cur",), (None, "cur"), ("cur", None, None), ("cur", "bad"), (None, "cur", "bad", None, "cur", "cur")]
